@@ -286,6 +286,7 @@ func runReset(c *core.Ctx) []core.Obligation {
 	}
 	obs = append(obs, cursorAdvance(c))
 	obs = append(obs, refreshReloads(c))
+	obs = append(obs, allFacesUpdated(c))
 	return obs
 }
 
@@ -469,6 +470,83 @@ func (d *defState) safeSet(scope map[*ssa.Function]bool) map[*ssa.Function]bool 
 	return safe
 }
 
+// scratchOther: the same must-define-before-use discipline for the other long-lived query and target objects (after
+// round-8 seeds C13-r8m1, a shape-id memo in CrossingEdgeQuery, and C13-r8m2, a cap-bound cache in the ShapeIndex
+// targets): a field that is written outside the constructor survives into the next call, so every read must be
+// preceded, in the same call, by an assignment - otherwise the answer depends on what the object was used for before
+// (and on what the index held then).
+func scratchOther(c *core.Ctx, S string, caches map[string]string) []core.Obligation {
+	var obs []core.Obligation
+	writes := structFieldWrites(c, S)
+	reads := structFieldReads(c, S)
+	var roots []*ssa.Function
+	for _, fn := range c.GeoFuncs() {
+		if fn.Signature.Recv() != nil && core.IsNamed(fn.Signature.Recv().Type(), "s2", S) && fn.Parent() == nil {
+			roots = append(roots, fn)
+		}
+	}
+	if len(roots) == 0 {
+		return append(obs, core.Ob("R-SCRATCH", S+":anchor", "-", "", core.Violated, "unresolved anchor: no methods of "+S))
+	}
+	ctors := map[*ssa.Function]bool{}
+	for _, w := range writes {
+		if isFreshBase(w.base) {
+			ctors[w.fn] = true
+		}
+	}
+	scopeSet := map[*ssa.Function]bool{}
+	for f := range c.ReachableFuncs(roots, nil) {
+		scopeSet[f] = true
+	}
+	for _, f := range structFieldNames(c, "s2", S) {
+		construct := S + "." + f
+		wset := map[*ssa.Function]bool{}
+		for _, w := range writes {
+			if w.field == f && !ctors[w.fn] {
+				wset[w.fn] = true
+			}
+		}
+		var writers []string
+		for w := range wset {
+			writers = append(writers, core.FuncName(w))
+		}
+		sort.Strings(writers)
+		if len(writers) == 0 {
+			o := core.Ob("R-SCRATCH", construct, "-", "", core.Discharged, "only set by the constructor")
+			o.Trivial = true
+			obs = append(obs, o)
+			continue
+		}
+		ds := &defState{c: c, structN: S, field: f, writes: writes}
+		ds.computeDefiners()
+		safe := ds.safeSet(scopeSet)
+		var whyNot []string
+		for _, r := range reads {
+			if r.field != f || ctors[r.fn] || !scopeSet[r.fn] {
+				continue
+			}
+			if safe[r.fn] || (r.fn.Parent() != nil && safe[r.fn.Parent()]) || ds.definedBefore(r.fn, r.in) {
+				continue
+			}
+			whyNot = append(whyNot, fmt.Sprintf("read in %s at %s is not preceded by an assignment in this call", core.FuncName(r.fn), c.Pos(r.in.Pos())))
+		}
+		switch {
+		case len(whyNot) == 0:
+			obs = append(obs, core.Ob("R-SCRATCH", construct, "-", "", core.Discharged, fmt.Sprintf("written by %s; every read is preceded on every path by an assignment made in the same call", strings.Join(writers, ", "))))
+		case caches[f] != "":
+			obs = append(obs, core.Ob("R-SCRATCH", construct, "-", "", core.Discharged, "named: "+caches[f]))
+		default:
+			sort.Strings(whyNot)
+			if len(whyNot) > 2 {
+				whyNot = whyNot[:2]
+			}
+			obs = append(obs, core.Ob("R-SCRATCH", construct, "-", "", core.Violated,
+				fmt.Sprintf("%s.%s is written by %s and survives into the next call, and it is read before it is assigned again (%s): a reused object answers from what it saw in an earlier call - after the index has been reset and refilled that is stale data, so the answer differs from that of a fresh object", S, f, strings.Join(writers, ", "), strings.Join(whyNot, "; "))))
+		}
+	}
+	return obs
+}
+
 func runScratch(c *core.Ctx) []core.Obligation {
 	var obs []core.Obligation
 	const S = "EdgeQuery"
@@ -477,6 +555,10 @@ func runScratch(c *core.Ctx) []core.Obligation {
 	if gate == nil || reset == nil {
 		return append(obs, core.Ob("R-SCRATCH", "anchor:EdgeQuery.findEdgesInternal", "-", "", core.Violated, "unresolved anchor"))
 	}
+	obs = append(obs, scratchOther(c, "CrossingEdgeQuery", map[string]string{})...)
+	obs = append(obs, scratchOther(c, "MinDistanceToShapeIndexTarget", map[string]string{})...)
+	obs = append(obs, scratchOther(c, "MaxDistanceToShapeIndexTarget", map[string]string{})...)
+	obs = append(obs, scratchOther(c, "ContainsPointQuery", map[string]string{})...)
 	writes := structFieldWrites(c, S)
 	reads := structFieldReads(c, S)
 	// public query entry points of EdgeQuery
@@ -1196,7 +1278,6 @@ func establishesIndex(c *core.Ctx, fn *ssa.Function, at ssa.Instruction, obj ssa
 	}
 	return true, how
 }
-
 
 // refreshReloads (after round-7 seed C13-r7m1, refresh skipping the map lookup "when the iterator has not moved"): a
 // long-lived iterator (inside a reused ContainsPointQuery, CrossingEdgeQuery or ShapeIndexRegion) outlives Reset and
